@@ -1,4 +1,5 @@
 import B6.Spec.SearchQuery
+import B6.Model.Posting
 /-!
 # Model of the search iterators (C06, shared layer L4)
 
@@ -55,7 +56,7 @@ def estimate (l : Leaf) : Nat :=
   match l.kind with
   | .array => l.xs.length + 1 - l.pos
   | .tree => l.xs.length
-  | .compact => l.xs.length     -- stands in for `(len(i.ids) - i.i) / 3` (bytes); only orders intersections
+  | .compact => l.xs.length     -- not used: compact indices hand out `Iter.pleaf`
 
 def ops : IterOps Leaf where
   next l := .ok l.next
@@ -345,35 +346,65 @@ inductive Iter where
   | inter (its : List Iter)
   | range (st : RangeState Iter)
   | tprefix (it : Iter)          -- `tokenPrefix{iterator: NewUnion(...)}`
+  /-- `compact.Iterator` over one posting list (C08's byte-level model), with the file's namespace table -/
+  | pleaf (names : List String) (pl : B6.Model.Posting.PostingList) (it : B6.Model.Posting.It)
 
 def liftRes {τ σ : Type} (emb : τ → σ) : Res τ → Res σ
   | .ok (b, t) => .ok (b, emb t)
   | .error e => .error e
 
+def liftPostingErr : B6.Model.Posting.Err → Err
+  | .panic => .panic
+  | .corrupt => .panic
+  | .fuel => .fuel
+
+/-- the `b6.FeatureID` of the key `TypeAndNamespace * 2^64 + value` (`NamespaceTable.DecodeID`; = `Posting.keyOf`) -/
+def postingKey (names : List String) (k : Nat) : B6.Model.Posting.Key :=
+  ⟨(k / 2 ^ 64) / 8192, names[(k / 2 ^ 64) % 8192]?.getD "", k % 2 ^ 64⟩
+
+def pleafLift (names : List String) (pl : B6.Model.Posting.PostingList)
+    (r : Except B6.Model.Posting.Err (Bool × B6.Model.Posting.It)) : Res Iter :=
+  match r with
+  | .ok p => .ok (p.1, .pleaf names pl p.2)
+  | .error e => .error (liftPostingErr e)
+
+def pleafValue (pl : B6.Model.Posting.PostingList) (it : B6.Model.Posting.It) : Option Nat :=
+  match B6.Model.Posting.cur pl it with
+  | .ok id => some (B6.Model.Posting.keyNat id)
+  | .error _ => none
+
 /-- Operations on `Iter` for iterator trees of nesting depth `≤ d`; `fuel` bounds the leapfrog loop of every
-intersection in the tree.  A tree deeper than `d` answers `Err.fuel`. -/
-def ops (fuel : Nat) : Nat → IterOps Iter
+intersection in the tree; `K` is the key domain (`IterOps.dom`; a proposition, it does not influence the
+computation).  A tree deeper than `d` answers `Err.fuel`. -/
+def ops (K : Nat → Prop) (fuel : Nat) : Nat → IterOps Iter
   | 0 =>
     { next := fun
         | .empty => .ok (false, .empty)
         | .leaf l => .ok (l.next.1, .leaf l.next.2)
+        | .pleaf names pl it => pleafLift names pl (B6.Model.Posting.next pl it)
         | _ => .error .fuel
       advance := fun k it =>
         match it with
         | .empty => .ok (false, .empty)
         | .leaf l => .ok ((l.advance k).1, .leaf (l.advance k).2)
+        | .pleaf names pl it =>
+          pleafLift names pl (B6.Model.Posting.advance pl ⟨names⟩ (postingKey names k) it)
         | _ => .error .fuel
       value := fun
         | .leaf l => l.value
+        | .pleaf _ pl it => pleafValue pl it
         | _ => none
       estimate := fun
         | .leaf l => l.estimate
-        | _ => 0 }
+        | .pleaf _ pl it => (pl.ids.length - it.i) / 3
+        | _ => 0
+      dom := K }
   | d + 1 =>
-    let sub := ops fuel d
+    let sub := ops K fuel d
     { next := fun
         | .empty => .ok (false, .empty)
         | .leaf l => .ok (l.next.1, .leaf l.next.2)
+        | .pleaf names pl it => pleafLift names pl (B6.Model.Posting.next pl it)
         | .union st => liftRes .union (Union.next sub st)
         | .inter its => liftRes .inter (Inter.next sub fuel its)
         | .range st => liftRes .range (Range.next sub st)
@@ -382,6 +413,8 @@ def ops (fuel : Nat) : Nat → IterOps Iter
         match it with
         | .empty => .ok (false, .empty)
         | .leaf l => .ok ((l.advance k).1, .leaf (l.advance k).2)
+        | .pleaf names pl it =>
+          pleafLift names pl (B6.Model.Posting.advance pl ⟨names⟩ (postingKey names k) it)
         | .union st => liftRes .union (Union.advance sub k st)
         | .inter its => liftRes .inter (Inter.advance sub fuel k its)
         | .range st => liftRes .range (Range.advance sub k st)
@@ -389,6 +422,7 @@ def ops (fuel : Nat) : Nat → IterOps Iter
       value := fun
         | .empty => none
         | .leaf l => l.value
+        | .pleaf _ pl it => pleafValue pl it
         | .union st => Union.value st
         | .inter its => Inter.value sub its
         | .range st => sub.value st.it
@@ -396,17 +430,29 @@ def ops (fuel : Nat) : Nat → IterOps Iter
       estimate := fun
         | .empty => 0
         | .leaf l => l.estimate
+        | .pleaf _ pl it => (pl.ids.length - it.i) / 3
         | .union st => Union.estimate sub st
         | .inter its => Inter.estimate sub its
         | .range st => sub.estimate st.it
-        | .tprefix it => sub.estimate it }
+        | .tprefix it => sub.estimate it
+      dom := K }
 
 /-! ## Queries and their compilation (`search.Query.Compile`) -/
+
+/-- key `TypeAndNamespace * 2^64 + value` → `(TypeAndNamespace, value)` -/
+def unkey (k : Nat) : B6.Model.Posting.Id := (k / 2 ^ 64, k % 2 ^ 64)
+
+/-- the iterator an index hands out for one posting list: an array / tree cursor, or — compact — the
+`compact.Iterator` over the bytes `PostingList.Fill` writes for the list -/
+def mkLeaf (ix : Index) (xs : List Nat) : Iter :=
+  match ix.kind with
+  | .compact => .pleaf ix.names (B6.Model.Posting.fill [] (xs.map unkey)) B6.Model.Posting.It.start
+  | k => .leaf ⟨k, xs, 0⟩
 
 /-- `index.Begin(token)` -/
 def indexBegin (ix : Index) (t : Token) : Iter :=
   match ix.lookup t with
-  | some xs => .leaf ⟨ix.kind, xs, 0⟩
+  | some xs => mkLeaf ix xs
   | none => .empty
 
 /-- `tokens.Advance(prefix)` then `for strings.HasPrefix(tokens.Token(), prefix) { …; tokens.Next() }`:
@@ -436,12 +482,12 @@ def compile (fuel : Nat) (ix : Index) : SQuery → Iter
   | .empty => .empty
   | .all t => indexBegin ix t
   | .union qs => .union (.fresh (compileList fuel ix qs))
-  | .inter qs => .inter (Inter.new (ops fuel (depthList qs)) (compileList fuel ix qs))
+  | .inter qs => .inter (Inter.new (ops (fun _ => True) fuel (depthList qs)) (compileList fuel ix qs))
   | .keyRange b e q => .range ⟨compile fuel ix q, b, e, false⟩
   | .tokenPrefix p =>
     match prefixRun ix p with
     | none => .empty
-    | some run => .tprefix (.union (.fresh (run.map fun e => .leaf ⟨ix.kind, e.2, 0⟩)))
+    | some run => .tprefix (.union (.fresh (run.map fun e => mkLeaf ix e.2)))
 def compileList (fuel : Nat) (ix : Index) : List SQuery → List Iter
   | [] => []
   | q :: qs => compile fuel ix q :: compileList fuel ix qs
